@@ -83,6 +83,9 @@ func (m *merged) add(st map[string]any) {
 func sortedCounts(m map[string]int) map[string]int { return m }
 
 func writeEvidence(prop, tier string, b budget, m *merged, violations int, wall float64) {
+	if m.samples == nil {
+		m.samples = []any{}
+	}
 	cov := map[string]any{
 		"evaluations":                       m.evaluations,
 		"distinct_nontrivial":               len(m.nontrivial),
@@ -124,6 +127,12 @@ func writeEvidence(prop, tier string, b budget, m *merged, violations int, wall 
 		"violations": violations,
 	}
 	out, _ := json.MarshalIndent(ev, "", " ")
-	_ = os.MkdirAll(filepath.Join(verifDir, "evidence"), 0o755)
-	_ = os.WriteFile(filepath.Join(verifDir, "evidence", prop+".json"), out, 0o644)
+	// evidence describes the tree the registered commands run on; runs against another tree (seeded changes,
+	// VERIF_REPO) write theirs elsewhere so that /verif/evidence never describes a modified moq
+	dir := filepath.Join(verifDir, "evidence")
+	if d := os.Getenv("VP_EVIDENCE_DIR"); d != "" {
+		dir = d
+	}
+	_ = os.MkdirAll(dir, 0o755)
+	_ = os.WriteFile(filepath.Join(dir, prop+".json"), out, 0o644)
 }
